@@ -362,7 +362,13 @@ func (h *handler) handleMessage(ctx context.Context, msg hwebsocket.Msg, respond
 }
 
 func (h *handler) disconnect(err error) {
-	h.disconnectChan <- err
+	select {
+	case h.disconnectChan <- err:
+	default:
+		// The channel is full: a disconnection is already pending. Blocking
+		// here would wedge the main loop, which is the only consumer of this
+		// channel and also one of its producers.
+	}
 }
 
 func (h *handler) handleDisconnect(err error) {
